@@ -42,7 +42,12 @@ type Call struct {
 	Input string `json:"input,omitempty"` // hex document for dec
 }
 
-func (c Call) Key() string { return fmt.Sprintf("%s/1.%d/%s/%s", c.Msg, c.Ver, c.Op, c.Enc) }
+func (c Call) Key() string {
+	if c.Ver >= 1000 {
+		return fmt.Sprintf("%s/%d.%d/%s/%s", c.Msg, c.Ver/1000-1, c.Ver%1000, c.Op, c.Enc)
+	}
+	return fmt.Sprintf("%s/1.%d/%s/%s", c.Msg, c.Ver, c.Op, c.Enc)
+}
 
 type Job struct {
 	Mode  string   `json:"mode"` // seq | gated | free
@@ -62,7 +67,12 @@ type Result struct {
 
 var MsgKinds = []string{"ReqGet", "ReqLocate", "ReqCreate", "RespGet", "RespQuery", "RespLocate"}
 
+// ver: 0..4 are KMIP 1.0 .. 1.4; values from 1000 on encode other (major, minor) pairs as (major+1)*1000 + minor - versions a
+// peer may announce although no KMIP release carries them
 func ver(i int) kmip.ProtocolVersion {
+	if i >= 1000 {
+		return kmip.ProtocolVersion{ProtocolVersionMajor: int32(i/1000 - 1), ProtocolVersionMinor: int32(i % 1000)}
+	}
 	return kmip.ProtocolVersion{ProtocolVersionMajor: 1, ProtocolVersionMinor: int32(i)}
 }
 
